@@ -369,6 +369,60 @@ def rule_steps(ctx: Ctx) -> None:
             ctx.ok("rref.step", m, fn, what=f"{kinds} swap(s), {kinds} elimination loop(s) from the pivot row(s), advance ({kinds}, 1)")
 
 
+def rule_inline_step(ctx: Ctx) -> None:
+    """rref.inline-step: a branch of one_step_rref that finishes a column itself (returns a pivot advanced by (k, 1) without delegating to
+    _process_one_pauli / _process_two_pauli) has, in its own block, one elimination loop per pivot row it claims: k loops over k different
+    row lists, each multiplying a pivot row into the rows of its list.  Advancing past two rows after clearing only one kind leaves rows
+    with a non-trivial Pauli in the column below the pivot, and the tableau is no longer in echelon gauge."""
+    repo = ctx.repo
+    m = repo.module(STABF)
+    fn = m.find("one_step_rref")
+    if fn is None:
+        raise AnalysisError("rref.inline-step: one_step_rref missing")
+    ctx.touch(m, fn)
+    PV = func_params(fn)[1]
+    n = 0
+    for r in [x for x in ast.walk(fn) if isinstance(x, ast.Return) and isinstance(x.value, ast.Tuple) and len(x.value.elts) == 2]:
+        blk = parent(r)
+        body = None
+        for name in ("body", "orelse"):
+            if any(r is b for b in getattr(blk, name, [])):
+                body = getattr(blk, name)
+        if body is None:
+            continue
+        pe = r.value.elts[1]
+        if isinstance(pe, ast.Name):
+            asg = [s_ for s_ in body[:body.index(r)] if isinstance(s_, ast.Assign) and norm(s_.targets[0]) == pe.id]
+            pe = asg[-1].value if asg else pe
+        adv = _pivot_advance(pe, PV)
+        if adv is None or adv[0] <= 0:
+            continue
+        n += 1
+        loops = [l for st in body[:body.index(r)] for l in ast.walk(st) if isinstance(l, ast.For)
+                 and any((call_attr(c) or getattr(c.func, "id", "")) == "tab_row_sum" and len(c.args) == 3 and isinstance(l.target, ast.Name)
+                         and norm(c.args[2]) == l.target.id for c in calls_in(l))]
+        srcs = set()
+        for l in loops:
+            it = l.iter
+            while isinstance(it, ast.Subscript):
+                it = it.value
+            srcs.add(norm(it))
+        deleg = 0
+        for st in body[:body.index(r)]:
+            for c in calls_in(st):
+                nm = call_attr(c) or getattr(c.func, "id", "")
+                deleg += 1 if nm == "_process_one_pauli" else 2 if nm == "_process_two_pauli" else 0
+        if len(srcs) + deleg >= adv[0]:
+            ctx.ok("rref.inline-step", m, r, what=f"advance by {adv}: {len(srcs)} kind(s) of rows eliminated in the same block, {deleg} through the step helpers")
+        else:
+            ctx.fail("rref.inline-step", m, r,
+                     f"one_step_rref returns a pivot advanced by {adv} after eliminating only {sorted(srcs) or 'no'} row list(s) in that branch: the other pivot row's "
+                     f"kind of Pauli is still present further down the column, so the result is not in echelon gauge (the linear 3-cluster given as "
+                     f"{{XZI, ZXZ, XIX}} gets the height profile [2, 1, 0] instead of [1, 1, 0])", func="one_step_rref",
+                     construct=f"one_step_rref: inline step advances {adv} with {len(srcs)} elimination loop(s)")
+    ctx.ok_abstract("rref.inline-step", f"{n} inline column step(s) in one_step_rref")
+
+
 def rule_loop(ctx: Ctx) -> None:
     """rref.loop: rref repeats one_step_rref, feeding it the pivot it returned, while the pivot is inside the tableau in both directions."""
     repo = ctx.repo
@@ -523,5 +577,6 @@ def arm(ctx: Ctx) -> None:
     rule_classify(ctx)
     rule_dispatch(ctx)
     rule_steps(ctx)
+    rule_inline_step(ctx)
     rule_loop(ctx)
     rule_leftmost(ctx)
